@@ -182,3 +182,41 @@ Proof.
   intros fx a a' c0 c t FX E L HC HT HB. apply verdict_cases; [exact FX|].
   exact (union_of_bare_used_not_accepted fx a a' c0 c t E L HC HT HB).
 Qed.
+
+(** the usage that carries no mark: by the lower-case constructor name, [bare] arbitrary *)
+Theorem reject_ctor_name_used_to_union : forall fx a a' c0 c bare args,
+  fx_args fx = true ->
+  types_of a (c_tname c0) = [c0] -> (1 < length (types_of a' (c_tname c0)))%nat ->
+  In c a ->
+  (c_res c = TRef (c_name c0) bare args \/ exists f, In f (c_fields c) /\ f_ty f = TRef (c_name c0) bare args) ->
+  exists code, lint_with fx a a' = Reject code.
+Proof.
+  intros fx a a' c0 c bare args FX E L HC HT.
+  apply (reject_bare_used_to_union fx a a' c0 c (TRef (c_name c0) bare args) FX E L HC).
+  - destruct HT as [H|[f [HF H]]]; [left; symmetry; exact H|right; exists f; split; [exact HF|symmetry; exact H]].
+  - apply IB_ctor.
+Qed.
+
+(** [nest ws t]: [t] wrapped as the first type argument (after any arithmetic ones) of each of [ws] *)
+Fixpoint nest (ws : list (string * bool * list ty * list ty)) (t : ty) : ty :=
+  match ws with
+  | [] => t
+  | (name, bare, nats, rest) :: ws' => TRef name bare (nats ++ nest ws' t :: rest)
+  end.
+
+Theorem reject_ctor_name_nested_to_union : forall fx a a' c0 c bare args ws,
+  fx_args fx = true ->
+  types_of a (c_tname c0) = [c0] -> (1 < length (types_of a' (c_tname c0)))%nat ->
+  In c a ->
+  Forall (fun w => Forall (fun t => exists n, t = TNat n) (snd (fst w))) ws ->
+  (c_res c = nest ws (TRef (c_name c0) bare args) \/
+   exists f, In f (c_fields c) /\ f_ty f = nest ws (TRef (c_name c0) bare args)) ->
+  exists code, lint_with fx a a' = Reject code.
+Proof.
+  intros fx a a' c0 c bare args ws FX E L HC HW HT.
+  apply (reject_bare_used_to_union fx a a' c0 c (nest ws (TRef (c_name c0) bare args)) FX E L HC).
+  - destruct HT as [H|[f [HF H]]]; [left; symmetry; exact H|right; exists f; split; [exact HF|symmetry; exact H]].
+  - clear HT. induction HW as [|[[[name b] nats] rest] ws' Hn Hw IH]; cbn [nest]; [apply IB_ctor|].
+    apply IB_arg; [exact Hn| |exact IH].
+    destruct ws' as [|[[[n2 b2] nats2] rest2] ws'']; cbn [nest]; eexists _, _, _; reflexivity.
+Qed.
